@@ -793,7 +793,12 @@ impl<Backing : AsRef<[u32]> + AsMut<[u32]>> DrawTarget<Backing> {
             #[cfg(feature = "verif")]
             crate::verif::probe(crate::verif::ProbeSite::ClearDirect);
             let color = solid.to_u32();
-            for pixel in self.buf.as_mut() {
+            // like every other drawing call, clear targets the innermost open layer
+            let dest = match self.layer_stack.last_mut() {
+                Some(layer) => &mut layer.buf[..],
+                None => self.buf.as_mut(),
+            };
+            for pixel in dest {
                 *pixel = color;
             }
         } else {
